@@ -1,1 +1,14 @@
-fn main(){ let src = std::fs::read_to_string(std::env::args().nth(1).unwrap()).unwrap(); let p = rooc::RoocParser::new(src.clone()); match p.parse_and_transform(vec![], &indexmap::IndexMap::new()) { Ok(m)=>println!("OK\n{}", m), Err(e)=>println!("ERR {}", e) } }
+// probe: compile a source file and print the linear model or the error
+fn main() {
+    let src = std::fs::read_to_string(std::env::args().nth(1).unwrap()).unwrap();
+    match rooc::RoocParser::new(src.clone()).parse_and_transform(vec![], &indexmap::IndexMap::new()) {
+        Ok(m) => {
+            println!("MODEL\n{}", m);
+            match rooc::Linearizer::linearize(m) {
+                Ok(l) => println!("LINEAR\n{}", l),
+                Err(e) => println!("LINERR {}", e),
+            }
+        }
+        Err(e) => println!("ERR {}", e),
+    }
+}
